@@ -14,6 +14,9 @@ LEAN_MODULES = ["MirProofs.Props.C05", "MirProofs.Props.C05_Transcription", "Mir
 # util._fast_hit_windows / util.match_events are REGENERATED (translate/evglue.py -> MirGen/EvGlue.lean); Props/C05_GenGlue.lean
 # states C05 on the translated definitions (hit pairs = the tolerance predicate, the returned pairing is valid and maximum)
 LEAN_MODULES += ["MirProofs.Props.C05_GenGlue"]
+# the transcription matching functions are REGENERATED too (translate/trmatch.py -> MirGen/TrMatch.lean); Props/C05_GenTr.lean
+# proves them equal to the hand model and states C05 (pairs satisfy all enabled criteria, one-to-one, maximum) on them
+LEAN_MODULES += ["MirProofs.Props.C05_GenTr"]
 TRANSLATOR_PARTS = ["hkshape", "evglue", "trmatch"]     # harness/translate/hkshape.py: util._bipartite_match still has the shape hkMatch was transliterated from
 RULE = ("bipartite graphs enumerated exhaustively (quick: all graphs up to 3x4 vertices, thorough: up to 4x5) "
         "and drawn at random up to 12x12 (thorough 40x40) incl. greedy-defeating gadgets; event sets on the "
@@ -399,23 +402,10 @@ SUITES["gen_evglue.util"] = suite_gen_evglue_util
 
 # the REGENERATED transcription matching functions (translate/trmatch.py -> MirGen/TrMatch.lean, driver op gen.trmatch) vs the
 # real functions, on the existing transcription streams (the hand-model cases re-targeted at the generated definitions)
-_TRM_OPS = ("match_note_onsets", "match_note_offsets", "match_notes", "onset_precision_recall_f1",
-            "offset_precision_recall_f1", "precision_recall_f1_overlap")
-
-
-def _has_none_pitch(c):
-    return any(isinstance(a, list) and any(x is None for x in a) for a in c.args)
-
-
 def suite_gen_trmatch(rng, tier, shard, nshards):
-    for key in ("transcription.match_notes", "transcription.match_onsets_offsets", "transcription.prf_overlap",
-                "transcription.onset_offset_prf", "transcription.validate"):
-        for c in _TR.SUITES[key](rng, tier, shard, nshards):
-            fn = c.op.split(".", 1)[1] if c.op.startswith("transcription.") else None
-            if fn in _TRM_OPS and not _has_none_pitch(c):
-                info = dict(c.info, op="gen.trmatch", fn=fn) if isinstance(c.info, dict) else {"op": "gen.trmatch", "fn": fn}
-                yield Case("gen.trmatch", [fn] + list(c.args), c.call, tol=c.tol, tag="gen " + (c.tag or fn), info=info,
-                           nontrivial=c.nontrivial, post=c.post)
+    import evglue_cases
+    for c in evglue_cases.trmatch_cases(rng, tier, shard, nshards):
+        yield c
 
 
 SUITES["gen_trmatch"] = suite_gen_trmatch
